@@ -3,30 +3,26 @@ import ComposeVerif.Lemmas.ExtendsFuel
 namespace CV.Extends
 open CV CV.Val
 
-/-- the key `applyServiceExtends` feeds the cycle tracker for a step of service `n` -/
-def stepKey (E : Env) (n : String) : Option String → Key
-  | none => (E.mainFile, n)
-  | some f => (f, n)
-
-/-- `Flat` together with the tracker keys recorded along the chain (outermost first) -/
-inductive FlatK (E : Env) : KVs → String → List Key → Val → Prop where
-  | leaf {S : KVs} {n : String} {svc : KVs} :
-      lookup n S = some (.map svc) → lookup "extends" svc = none → FlatK E S n [] (.map svc)
-  | step {S : KVs} {n : String} {svc : KVs} {e : Val} {ref : String} {file : Option String}
+/-- `Flat` for service `n` of file `cf`, together with the tracker keys `(current file, extending name)`
+recorded along the chain (outermost first) -/
+inductive FlatK (E : Env) : String → KVs → String → List Key → Val → Prop where
+  | leaf {cf : String} {S : KVs} {n : String} {svc : KVs} :
+      lookup n S = some (.map svc) → lookup "extends" svc = none → FlatK E cf S n [] (.map svc)
+  | step {cf : String} {S : KVs} {n : String} {svc : KVs} {e : Val} {ref : String} {file : Option String}
       {S' b m : KVs} {ks : List Key} :
       lookup n S = some (.map svc) → lookup "extends" svc = some e →
       parseExtends e = .ok (ref, file) → baseMap E S ref file = some S' →
-      FlatK E S' ref ks (.map b) → E.extend b svc = .ok m →
-      FlatK E S n (stepKey E n file :: ks) (.map (Val.erase "extends" m))
+      FlatK E (nextFile cf file) S' ref ks (.map b) → E.extend b svc = .ok m →
+      FlatK E cf S n ((cf, n) :: ks) (.map (Val.erase "extends" m))
 
-theorem FlatK.flat {E : Env} {S : KVs} {n : String} {ks : List Key} {v : Val} (h : FlatK E S n ks v) : Flat E S n v := by
+theorem FlatK.flat {E : Env} {cf : String} {S : KVs} {n : String} {ks : List Key} {v : Val} (h : FlatK E cf S n ks v) : Flat E S n v := by
   induction h with
   | leaf h1 h2 => exact Flat.leaf h1 h2
   | step h1 h2 h3 h4 _ h6 ih => exact Flat.step h1 h2 h3 h4 ih h6
 
-theorem baseMap_resolveBase {E : Env} {S S' : KVs} {n ref : String} {file : Option String}
+theorem baseMap_resolveBase {E : Env} {S S' : KVs} {cf n ref : String} {file : Option String}
     (h : baseMap E S ref file = some S') :
-    resolveBase E n ref file S = .ok (S', stepKey E n file, file.isNone) ∧ lookup ref S' ≠ none ∧
+    resolveBase E cf n ref file S = .ok (S', (cf, n), file.isNone) ∧ lookup ref S' ≠ none ∧
       (file = none → S' = S) ∧ (∀ f, file = some f → fileServices E.fs f = some S') := by
   cases file with
   | none =>
@@ -35,7 +31,7 @@ theorem baseMap_resolveBase {E : Env} {S S' : KVs} {n ref : String} {file : Opti
     rename_i hl
     cases hx : lookup ref S with
     | none => simp [hx] at hl
-    | some x => simp [resolveBase, hx, stepKey]
+    | some x => simp [resolveBase, hx]
   | some f =>
     simp only [baseMap] at h
     split at h <;> try cases h
@@ -47,22 +43,22 @@ theorem baseMap_resolveBase {E : Env} {S S' : KVs} {n ref : String} {file : Opti
     | none => simp [hx] at hl
     | some x =>
       refine ⟨?_, by simp [hx], by simp, fun f' hf' => by injection hf' with hf'; subst hf'; exact hfs⟩
-      simp [resolveBase, baseFromFile, hd, hs, hx, stepKey]
+      simp [resolveBase, baseFromFile, hd, hs, hx]
 
 /-- a memoised or extends-free entry is returned as it is -/
-theorem applySvc_noext {E : Env} {fuel : Nat} {n : String} {cur : KVs} {tr : List Key} {svc : KVs}
+theorem applySvc_noext {E : Env} {fuel : Nat} {cf n : String} {cur : KVs} {tr : List Key} {svc : KVs}
     (h1 : lookup n cur = some (.map svc)) (h2 : lookup "extends" svc = none) :
-    applySvc E (fuel + 1) n cur tr = .ok (.map svc, cur) := by
+    applySvc E (fuel + 1) cf n cur tr = .ok (.map svc, cur) := by
   simp [applySvc, h1, h2]
 
 theorem applySvc_complete (E : Env) :
-    ∀ {S : KVs} {n : String} {ks : List Key} {v : Val}, FlatK E S n ks v →
+    ∀ {cf : String} {S : KVs} {n : String} {ks : List Key} {v : Val}, FlatK E cf S n ks v →
     ∀ (fuel : Nat) (cur : KVs) (tr : List Key), Inv E S cur → (tr ++ ks).Nodup → ks.length < fuel →
-      ∃ cur', applySvc E fuel n cur tr = .ok (v, cur') ∧ Inv E S cur' := by
-  intro S n ks v h
+      ∃ cur', applySvc E fuel cf n cur tr = .ok (v, cur') ∧ Inv E S cur' := by
+  intro cf S n ks v h
   induction h with
   | leaf h1 h2 =>
-    rename_i S n svc
+    rename_i cf S n svc
     intro fuel cur tr hi _ hf
     obtain ⟨fuel', rfl⟩ : ∃ k, fuel = k + 1 := ⟨fuel - 1, by omega⟩
     rcases hi n with g | ⟨w, g1, g2⟩
@@ -71,46 +67,48 @@ theorem applySvc_complete (E : Env) :
       subst this
       exact ⟨cur, applySvc_noext g1 h2, hi⟩
   | step h1 h2 h3 h4 h5 h6 ih =>
-    rename_i S n svc e ref file S' b m ks
+    rename_i cf S n svc e ref file S' b m ks
     intro fuel cur tr hi hnd hf
     obtain ⟨fuel', rfl⟩ : ∃ k, fuel = k + 1 := ⟨fuel - 1, by omega⟩
-    have hflat : Flat E S n (.map (Val.erase "extends" m)) := (FlatK.step h1 h2 h3 h4 h5 h6).flat
+    have hflat : Flat E S n (.map (Val.erase "extends" m)) := (FlatK.step (cf := cf) h1 h2 h3 h4 h5 h6).flat
     rcases hi n with g | ⟨w, g1, g2⟩
     · -- the entry is still the original one: walk the chain
       have hcur : lookup n cur = some (.map svc) := g ▸ h1
       have hfuel : ks.length < fuel' := by simp only [List.length_cons] at hf; omega
-      have hkey : stepKey E n file ∉ tr := by
+      have hkey : (cf, n) ∉ tr := by
         intro hm
         have := (List.nodup_append.mp hnd).2.2 _ hm _ (List.mem_cons_self ..)
         exact this rfl
-      have hnd' : ((tr ++ [stepKey E n file]) ++ ks).Nodup := by
+      have hnd' : ((tr ++ [(cf, n)]) ++ ks).Nodup := by
         simpa [List.append_assoc] using hnd
-      have hta : trackerAdd tr (stepKey E n file) = some (tr ++ [stepKey E n file]) := by
+      have hta : trackerAdd tr (cf, n) = some (tr ++ [(cf, n)]) := by
         simp [trackerAdd, hkey]
       cases file with
       | none =>
-        obtain ⟨_, href, hS', _⟩ := baseMap_resolveBase (n := n) h4
+        obtain ⟨_, href, hS', _⟩ := baseMap_resolveBase (cf := cf) (n := n) h4
         have hS'' := hS' rfl
         subst hS''
-        have hrb : resolveBase E n ref none cur = .ok (cur, stepKey E n none, true) := by
+        have hrb : resolveBase E cf n ref none cur = .ok (cur, (cf, n), true) := by
           have hk := (hi.key_iff ref).mpr href
           cases hx : lookup ref cur with
           | none => exact absurd hx hk
-          | some x => simp [resolveBase, hx, stepKey]
-        obtain ⟨cur₁, hrec, hi₁⟩ := ih fuel' cur (tr ++ [stepKey E n none]) hi hnd' hfuel
+          | some x => simp [resolveBase, hx]
+        obtain ⟨cur₁, hrec, hi₁⟩ := ih fuel' cur (tr ++ [(cf, n)]) hi hnd' hfuel
         refine ⟨Val.insert n (.map (Val.erase "extends" m)) cur₁, ?_, hi₁.insert hflat⟩
-        simp [applySvc, hcur, h2, h3, hrb, hta, hrec, h6]
+        simp only [nextFile] at hrec
+        simp [applySvc, hcur, h2, h3, hrb, hta, nextFile, hrec, h6]
       | some f =>
-        obtain ⟨hrb0, href, _, hfs⟩ := baseMap_resolveBase (n := n) h4
-        have hrb : resolveBase E n ref (some f) cur = .ok (S', stepKey E n (some f), false) := by
+        obtain ⟨hrb0, href, _, hfs⟩ := baseMap_resolveBase (cf := cf) (n := n) h4
+        have hrb : resolveBase E cf n ref (some f) cur = .ok (S', (cf, n), false) := by
           have hfs' := hfs f rfl
           obtain ⟨doc, hd, hs⟩ := fileServices_inv hfs'
           cases hx : lookup ref S' with
           | none => exact absurd hx href
-          | some x => simp [resolveBase, baseFromFile, hd, hs, hx, stepKey]
-        obtain ⟨cur₁, hrec, _⟩ := ih fuel' S' (tr ++ [stepKey E n (some f)]) (Inv.refl E S') hnd' hfuel
+          | some x => simp [resolveBase, baseFromFile, hd, hs, hx]
+        obtain ⟨cur₁, hrec, _⟩ := ih fuel' S' (tr ++ [(cf, n)]) (Inv.refl E S') hnd' hfuel
         refine ⟨cur, ?_, hi⟩
-        simp [applySvc, hcur, h2, h3, hrb, hta, hrec, h6]
+        simp only [nextFile] at hrec
+        simp [applySvc, hcur, h2, h3, hrb, hta, nextFile, hrec, h6]
     · -- the entry is already memoised
       have := g2.functional hflat
       subst this
@@ -118,7 +116,7 @@ theorem applySvc_complete (E : Env) :
 
 theorem applyAll_complete (E : Env) (fuel : Nat) :
     ∀ (names : List String) (cur S : KVs), Inv E S cur →
-      (∀ n ∈ names, ∃ ks v, FlatK E S n ks v ∧ ks.Nodup ∧ ks.length < fuel) →
+      (∀ n ∈ names, ∃ ks v, FlatK E E.mainFile S n ks v ∧ ks.Nodup ∧ ks.length < fuel) →
       ∃ R, applyAll E fuel names cur = .ok R ∧ Inv E S R := by
   intro names
   induction names with
@@ -131,26 +129,100 @@ theorem applyAll_complete (E : Env) (fuel : Nat) :
       (fun m hm => hall m (List.mem_cons_of_mem _ hm))
     exact ⟨R, by simp [applyAll, hrun, hR], hiR⟩
 
-theorem FlatK.keys_sub {E : Env} {S0 S : KVs} {n : String} {ks : List Key} {v : Val}
-    (h : FlatK E S n ks v) : KeysSub E S0 S → ∀ k ∈ ks, k ∈ keyUniverse E S0 := by
+theorem FlatK.keys_sub {E : Env} {S0 S : KVs} {cf n : String} {ks : List Key} {v : Val}
+    (h : FlatK E cf S n ks v) : cf ∈ allFiles E → KeysSub E S0 S → ∀ k ∈ ks, k ∈ keyUniverse E S0 := by
+  induction h with
+  | leaf => intro _ _ k hk; cases hk
+  | step h1 h2 h3 h4 h5 h6 ih =>
+    rename_i cf S n svc e ref file S' b m ks
+    intro hcf hsub k hk
+    obtain ⟨_, _, hnone, hsome⟩ := baseMap_resolveBase (cf := cf) (n := n) h4
+    have hn : n ∈ allNames E S0 := hsub n (by rw [h1]; simp)
+    rcases List.mem_cons.mp hk with rfl | hk'
+    · exact mem_keyUniverse hcf hn
+    · cases file with
+      | none =>
+        have := hnone rfl
+        subst this
+        exact ih hcf hsub k hk'
+      | some f =>
+        obtain ⟨a, bb⟩ := fileServices_keysSub (S0 := S0) (hsome f rfl)
+        exact ih bb a k hk'
+
+/-- every flattened service has a key-annotated derivation, whatever the current file is called -/
+theorem Flat.toK {E : Env} {S : KVs} {n : String} {v : Val} (h : Flat E S n v) :
+    ∀ cf, ∃ ks, FlatK E cf S n ks v := by
+  induction h with
+  | leaf h1 h2 => intro cf; exact ⟨[], FlatK.leaf h1 h2⟩
+  | step h1 h2 h3 h4 h5 h6 ih =>
+    rename_i S n svc e ref file S' b m
+    intro cf
+    obtain ⟨ks, hk⟩ := ih (nextFile cf file)
+    exact ⟨(cf, n) :: ks, FlatK.step h1 h2 h3 h4 hk h6⟩
+
+/-! ## on an acyclic chain the tracker keys are pairwise distinct (post-fix tracker) -/
+
+/-- the mapping `S` is the one the file name `cf` stands for: the main file's services `S0`, or the services
+of the extended file referenced as `cf` -/
+def Loc (E : Env) (S0 : KVs) (cf : String) (S : KVs) : Prop :=
+  (cf = E.mainFile ∧ S = S0) ∨ fileServices E.fs cf = some S
+
+/-- when no reference is spelled exactly like the main file's own name, a file name determines its mapping -/
+theorem Loc.unique {E : Env} {S0 : KVs} (hmain : fileServices E.fs E.mainFile = none) {cf : String} {S S' : KVs}
+    (h : Loc E S0 cf S) (h' : Loc E S0 cf S') : S = S' := by
+  rcases h with ⟨a, b⟩ | a <;> rcases h' with ⟨a', b'⟩ | a'
+  · rw [b, b']
+  · rw [a, hmain] at a'; cases a'
+  · rw [a', hmain] at a; cases a
+  · rw [a] at a'; injection a'
+
+theorem Loc.next {E : Env} {S0 S S' : KVs} {cf ref : String} {file : Option String}
+    (h : Loc E S0 cf S) (hb : baseMap E S ref file = some S') : Loc E S0 (nextFile cf file) S' := by
+  obtain ⟨_, _, hnone, hsome⟩ := baseMap_resolveBase (cf := cf) (n := ref) hb
+  cases file with
+  | none => rw [hnone rfl]; exact h
+  | some f => exact Or.inr (hsome f rfl)
+
+/-- every recorded key is the (file, name) of a node on the chain -/
+theorem FlatK.key_nodes {E : Env} {S0 : KVs} {cf : String} {S : KVs} {n : String} {ks : List Key} {v : Val}
+    (h : FlatK E cf S n ks v) : Loc E S0 cf S → ∀ k ∈ ks, ∃ cf' S' n', k = (cf', n') ∧ Loc E S0 cf' S' ∧
+      ((S', n') = (S, n) ∨ Reach E (S, n) (S', n')) := by
   induction h with
   | leaf => intro _ k hk; cases hk
   | step h1 h2 h3 h4 h5 h6 ih =>
-    rename_i S n svc e ref file S' b m ks
-    intro hsub k hk
-    obtain ⟨_, _, hnone, hsome⟩ := baseMap_resolveBase (n := n) h4
-    have hn : n ∈ allNames E S0 := hsub n (by rw [h1]; simp)
-    cases file with
-    | none =>
-      have := hnone rfl
-      subst this
-      rcases List.mem_cons.mp hk with rfl | hk'
-      · exact mem_keyUniverse (by simp [allFiles]) hn
-      · exact ih hsub k hk'
-    | some f =>
-      obtain ⟨a, bb⟩ := fileServices_keysSub (S0 := S0) (hsome f rfl)
-      rcases List.mem_cons.mp hk with rfl | hk'
-      · exact mem_keyUniverse bb hn
-      · exact ih a k hk'
+    rename_i cf S n svc e ref file S' b m ks
+    intro hloc k hk
+    rcases List.mem_cons.mp hk with rfl | hk'
+    · exact ⟨cf, S, n, rfl, hloc, Or.inl rfl⟩
+    · obtain ⟨cf', S'', n', e1, e2, e3⟩ := ih (hloc.next h4) k hk'
+      have l0 : Link E (S, n) (S', ref) := ⟨svc, e, file, h1, h2, h3, h4⟩
+      refine ⟨cf', S'', n', e1, e2, Or.inr ?_⟩
+      rcases e3 with e3 | e3
+      · rw [e3]; exact Reach.one l0
+      · exact Reach.cons l0 e3
+
+theorem FlatK.nodup {E : Env} {S0 : KVs} (hmain : fileServices E.fs E.mainFile = none)
+    {cf : String} {S : KVs} {n : String} {ks : List Key} {v : Val}
+    (h : FlatK E cf S n ks v) : Loc E S0 cf S → ks.Nodup := by
+  induction h with
+  | leaf => intro _; exact List.nodup_nil
+  | step h1 h2 h3 h4 h5 h6 ih =>
+    rename_i cf S n svc e ref file S' b m ks
+    intro hloc
+    have hflat : Flat E S n (.map (Val.erase "extends" m)) := (FlatK.step (cf := cf) h1 h2 h3 h4 h5 h6).flat
+    have l0 : Link E (S, n) (S', ref) := ⟨svc, e, file, h1, h2, h3, h4⟩
+    refine List.nodup_cons.mpr ⟨?_, ih (hloc.next h4)⟩
+    intro hm
+    obtain ⟨cf', S'', n', e1, e2, e3⟩ := h5.key_nodes (S0 := S0) (hloc.next h4) _ hm
+    simp only [Prod.mk.injEq] at e1
+    obtain ⟨ea, eb⟩ := e1
+    subst ea; subst eb
+    have := Loc.unique hmain e2 hloc
+    subst this
+    have hcyc : Reach E (S'', n) (S'', n) := by
+      rcases e3 with e3 | e3
+      · rw [e3] at l0 ⊢; exact Reach.one (e3 ▸ l0)
+      · exact Reach.cons l0 e3
+    exact hflat.acyclic _ (Or.inl rfl) hcyc
 
 end CV.Extends
